@@ -95,6 +95,50 @@ class _Renamer(ast.NodeTransformer):
     def visit_arg(self, node):
         return node
 
+    def _scoped(self, node, bound: Set[str]):
+        # names bound by a nested scope (lambda / def parameters, the nested def's own locals) are that scope's business
+        saved = (self.names, self.subst)
+        self.names = {k: v for k, v in self.names.items() if k not in bound}
+        self.subst = {k: v for k, v in self.subst.items() if k not in bound}
+        try:
+            return self.generic_visit(node)
+        finally:
+            self.names, self.subst = saved
+
+    def visit_Lambda(self, node):
+        a = node.args
+        bound = {x.arg for x in list(a.posonlyargs) + list(a.args) + list(a.kwonlyargs)} | ({a.vararg.arg} if a.vararg else set()) | ({a.kwarg.arg} if a.kwarg else set())
+        # defaults are evaluated in the enclosing scope
+        a.defaults = [self.visit(d) for d in a.defaults]
+        a.kw_defaults = [self.visit(d) if d is not None else None for d in a.kw_defaults]
+        saved = (self.names, self.subst)
+        self.names = {k: v for k, v in self.names.items() if k not in bound}
+        self.subst = {k: v for k, v in self.subst.items() if k not in bound}
+        try:
+            node.body = self.visit(node.body)
+        finally:
+            self.names, self.subst = saved
+        return node
+
+    def visit_FunctionDef(self, node):
+        a = node.args
+        bound = {x.arg for x in list(a.posonlyargs) + list(a.args) + list(a.kwonlyargs)} | ({a.vararg.arg} if a.vararg else set()) | ({a.kwarg.arg} if a.kwarg else set())
+        for n in ast.walk(node):
+            if n is not node and isinstance(n, ast.Name) and isinstance(n.ctx, (ast.Store, ast.Del)):
+                bound.add(n.id)
+        if node.name in self.names:
+            node.name = self.names[node.name]
+        a.defaults = [self.visit(d) for d in a.defaults]
+        a.kw_defaults = [self.visit(d) if d is not None else None for d in a.kw_defaults]
+        saved = (self.names, self.subst)
+        self.names = {k: v for k, v in self.names.items() if k not in bound}
+        self.subst = {k: v for k, v in self.subst.items() if k not in bound}
+        try:
+            node.body = [self.visit(b) for b in node.body]
+        finally:
+            self.names, self.subst = saved
+        return node
+
 
 def _is_attr_chain(e) -> bool:
     while isinstance(e, ast.Attribute):
@@ -142,14 +186,24 @@ def _single_exit(stmts: List[ast.stmt], on_return) -> Tuple[List[ast.stmt], bool
 
 
 def _assigned_names(fn_node) -> Set[str]:
+    """names bound in the function's own scope (parameters, stores, nested def names); nested scopes keep theirs"""
     out = set()
-    for n in ast.walk(fn_node):
+    a = fn_node.args
+    for x in list(a.posonlyargs) + list(a.args) + list(a.kwonlyargs) + [y for y in (a.vararg, a.kwarg) if y]:
+        out.add(x.arg)
+    stack = list(fn_node.body)
+    while stack:
+        n = stack.pop()
+        if isinstance(n, (ast.FunctionDef, ast.AsyncFunctionDef, ast.ClassDef)):
+            out.add(n.name)
+            continue
+        if isinstance(n, ast.Lambda):
+            continue
         if isinstance(n, ast.Name) and isinstance(n.ctx, (ast.Store, ast.Del)):
             out.add(n.id)
-        elif isinstance(n, ast.arg):
-            out.add(n.arg)
         elif isinstance(n, ast.ExceptHandler) and n.name:
             out.add(n.name)
+        stack.extend(ast.iter_child_nodes(n))
     return out
 
 
@@ -301,8 +355,13 @@ def _candidates(prog: Program):
             body = body[1:]
         if not body or sum(1 for _ in ast.walk(node) if isinstance(_, ast.stmt)) > MAX_STMTS:
             continue
-        if any(_contains(s, (ast.FunctionDef, ast.AsyncFunctionDef, ast.ClassDef, ast.Lambda, ast.Yield, ast.YieldFrom, ast.Global, ast.Nonlocal, ast.Await)) for s in body):
+        if any(_contains(s, (ast.AsyncFunctionDef, ast.ClassDef, ast.Yield, ast.YieldFrom, ast.Global, ast.Nonlocal, ast.Await)) for s in body):
             continue
+        has_closure = any(_contains(s, (ast.FunctionDef, ast.Lambda)) for s in body)
+        if has_closure:
+            # closures bind the helper's variables late: exact only for one call site outside any loop (one frame, as before)
+            if len(sites) != 1 or any(isinstance(p_, (ast.For, ast.While, ast.AsyncFor, ast.ListComp, ast.GeneratorExp, ast.Lambda)) for p_ in prog.ancestors(sites[0][1])):
+                continue
         if not _structured_returns(body):
             continue
         if f.cls is not None:
@@ -394,6 +453,11 @@ def _inline_site(prog: Program, f: FunctionInfo, body, caller: FunctionInfo, cal
             if isinstance(n, ast.Name) and isinstance(n.ctx, (ast.Store, ast.Del)):
                 callee_assigned.add(n.id)
     callee_locals = _assigned_names(f.node)
+    closure_reads: Set[str] = set()
+    for s in body:
+        for n in ast.walk(s):
+            if isinstance(n, (ast.Lambda, ast.FunctionDef)):
+                closure_reads |= {x.id for x in ast.walk(n) if isinstance(x, ast.Name)}
 
     # a callee local may keep its name when it only collides with a target of the call statement that is not also
     # passed in: the target is overwritten by the call anyway and nothing reads it while the inlined body runs
@@ -442,6 +506,18 @@ def _inline_site(prog: Program, f: FunctionInfo, body, caller: FunctionInfo, cal
             if arg is None:
                 raise AnalysisError(f"cannot bind parameter {p} of {f.qualname}")
         simple = isinstance(arg, ast.Constant) or (isinstance(arg, ast.Name) and arg.id not in callee_assigned)
+        if p in closure_reads and not isinstance(arg, ast.Constant):
+            # a closure of the helper reads this parameter whenever it is called later: the caller's expression may only
+            # stand in for it if the caller never re-binds it after the call
+            later = isinstance(arg, ast.Name) and not any(
+                isinstance(n, ast.Name) and n.id == arg.id and isinstance(n.ctx, (ast.Store, ast.Del)) and getattr(n, "_ord", 10**9) > getattr(stmt, "_ord", -1)
+                for n in ast.walk(caller.node))
+            simple = bool(later) and arg.id not in callee_assigned
+            if not simple:
+                new = fresh(p)
+                names[p] = new
+                pre.append(ast.Assign(targets=[ast.Name(id=new, ctx=ast.Store())], value=copy.deepcopy(arg), lineno=stmt.lineno, col_offset=stmt.col_offset))
+                continue
         if not simple and pure_body and _is_attr_chain(arg):
             simple = True  # ``self.lb`` read by a helper that stores nothing and calls only numpy / builtins
         if not simple and _is_attr_chain(arg) and isinstance(arg, ast.Attribute):
@@ -732,6 +808,99 @@ def unroll_literal_generators(fn_node) -> int:
     return count[0]
 
 
+def unroll_literal_for_loops(fn_node) -> int:
+    """``for b in (self.lb, self.ub): b[m] = f(b[m])`` / ``for k, b in enumerate((..))``: one copy of the (short) body per
+    element with the loop variable replaced.  Only when the elements denote the same object every time they are evaluated,
+    the body neither re-binds the variable nor leaves the loop early, and the variable is dead outside the loop."""
+    from .aggregates import _same_object_each_time
+
+    count = 0
+    all_names: Dict[str, int] = {}
+    for n in ast.walk(fn_node):
+        if isinstance(n, ast.Name):
+            all_names[n.id] = all_names.get(n.id, 0) + 1
+
+    class Sub(ast.NodeTransformer):
+        def __init__(self, m):
+            self.m = m
+
+        def visit_Name(self, node):
+            if node.id in self.m and isinstance(node.ctx, ast.Load):
+                return ast.copy_location(copy.deepcopy(self.m[node.id]), node)
+            return node
+
+    for node in ast.walk(fn_node):
+        for fld in ("body", "orelse", "finalbody"):
+            blk = getattr(node, fld, None)
+            if not (isinstance(blk, list) and blk and isinstance(blk[0], ast.stmt)):
+                continue
+            i = 0
+            while i < len(blk):
+                st = blk[i]
+                i += 1
+                if not isinstance(st, ast.For) or st.orelse:
+                    continue
+                it, tgt = st.iter, st.target
+                kvar = None
+                if isinstance(it, ast.Call) and isinstance(it.func, ast.Name) and it.func.id == "enumerate" and len(it.args) == 1 and not it.keywords \
+                        and isinstance(tgt, ast.Tuple) and len(tgt.elts) == 2 and all(isinstance(e, ast.Name) for e in tgt.elts):
+                    kvar, var, it = tgt.elts[0].id, tgt.elts[1].id, it.args[0]
+                elif isinstance(tgt, ast.Name):
+                    var = tgt.id
+                else:
+                    continue
+                if not (isinstance(it, (ast.Tuple, ast.List)) and 1 <= len(it.elts) <= 8 and all(_same_object_each_time(e) for e in it.elts)):
+                    continue
+                body_nodes = [n for s_ in st.body for n in ast.walk(s_)]
+                if len(st.body) > 6 or any(isinstance(n, (ast.Break, ast.Continue, ast.Return, ast.Lambda, ast.FunctionDef, ast.Yield)) for n in body_nodes):
+                    continue
+                loop_vars = {var} | ({kvar} if kvar else set())
+                if any(isinstance(n, ast.Name) and n.id in loop_vars and not isinstance(n.ctx, ast.Load) for n in body_nodes):
+                    continue
+                inside = sum(1 for n in body_nodes if isinstance(n, ast.Name) and n.id in loop_vars) + len(loop_vars)
+                if sum(all_names.get(v_, 0) for v_ in loop_vars) != inside:
+                    continue  # read after the loop
+                new = []
+                for k_, e in enumerate(it.elts):
+                    m = {var: e}
+                    if kvar:
+                        m[kvar] = ast.Constant(value=k_)
+                    new += [Sub(m).visit(copy.deepcopy(s_)) for s_ in st.body]
+                blk[i - 1:i] = new
+                i += len(new) - 1
+                count += 1
+    if count:
+        ast.fix_missing_locations(fn_node)
+    return count
+
+
+def nested_defs_to_lambdas(fn_node) -> int:
+    """``def g(x): return e`` nested in a function -> ``g = lambda x: e`` (same closure, same call behaviour)."""
+    count = 0
+    for node in ast.walk(fn_node):
+        for fld in ("body", "orelse", "finalbody"):
+            blk = getattr(node, fld, None)
+            if not (isinstance(blk, list) and blk and isinstance(blk[0], ast.stmt)):
+                continue
+            for i, st in enumerate(blk):
+                if st is fn_node or not isinstance(st, ast.FunctionDef) or st.decorator_list:
+                    continue
+                body = [b for b in st.body if not (isinstance(b, ast.Expr) and isinstance(b.value, ast.Constant) and isinstance(b.value.value, str))]
+                if len(body) != 1 or not isinstance(body[0], ast.Return) or body[0].value is None:
+                    continue
+                if any(isinstance(n, (ast.Yield, ast.YieldFrom, ast.Await)) for n in ast.walk(body[0])):
+                    continue
+                args = copy.deepcopy(st.args)
+                for a in list(args.posonlyargs) + list(args.args) + list(args.kwonlyargs) + [x for x in (args.vararg, args.kwarg) if x]:
+                    a.annotation = None
+                lam = ast.Lambda(args=args, body=body[0].value)
+                blk[i] = ast.copy_location(ast.Assign(targets=[ast.Name(id=st.name, ctx=ast.Store())], value=ast.copy_location(lam, st)), st)
+                count += 1
+    if count:
+        ast.fix_missing_locations(fn_node)
+    return count
+
+
 CONTAINER_ATTRS = {"options", "optim_state", "function_logger", "iteration_history", "var_transf", "variable_transformer", "logger"}
 
 
@@ -973,6 +1142,14 @@ def normalise(prog: Program) -> Tuple[Program, List[str]]:
                 ast.fix_missing_locations(fn.node)
                 changed_alias = True
                 log.append(f"{fn.qualname} ({nt} test(s) of a just-assigned None / tuple flag threaded into the assigning branches)")
+            nl = unroll_literal_for_loops(fn.node)
+            if nl:
+                changed_alias = True
+                log.append(f"{fn.qualname} ({nl} for-loop(s) over a literal tuple unrolled)")
+            nd = nested_defs_to_lambdas(fn.node)
+            if nd:
+                changed_alias = True
+                log.append(f"{fn.qualname} ({nd} nested one-line def(s) rewritten as lambdas)")
         ng = unroll_literal_generators(fn.node)
         if ng:
             changed_alias = True
